@@ -795,6 +795,12 @@ def matrix_inverse_pth_root(
     eigvals, eigvecs, lobpcg_iters = linalg.lobpcg_standard(
         matrix, search_dirs,
         lobpcg_topk_precondition if lobpcg_max_iter == 0 else lobpcg_max_iter)
+    # lobpcg_standard returns NaN eigenpairs on numerically low-rank input; fall
+    # back to no deflation instead of poisoning the root with them.
+    lobpcg_ok = jnp.logical_and(
+        jnp.all(jnp.isfinite(eigvals)), jnp.all(jnp.isfinite(eigvecs)))
+    eigvals = jnp.where(lobpcg_ok, eigvals, 0.0)
+    eigvecs = jnp.where(lobpcg_ok, eigvecs, 0.0)
     lobpcg_diagnostics = LOBPCGDiagnostics.create(
         matrix,
         eigvals,
